@@ -160,6 +160,14 @@ func runFixtures(vdir string) (map[string]string, error) {
 					got = true
 				}
 			}
+		case strings.HasPrefix(rest, "ErrClass"):
+			engine = "error classes"
+			ec := newErrClassifier(ctx)
+			for k := range ec.ofFunc(f, 0) {
+				if strings.HasPrefix(k, "other:") {
+					got = true
+				}
+			}
 		case strings.HasPrefix(rest, "Draw"):
 			engine = "draw order"
 			steps, ordered := drawSeq(f, f.Params[0])
